@@ -12,6 +12,7 @@ import (
 	"bytes"
 	"encoding/binary"
 	"encoding/hex"
+	"errors"
 	"fmt"
 	"io"
 	"log/slog"
@@ -107,6 +108,11 @@ func c10Base(r *kit.Rand, version uint32, be bool, rich bool) *kit.GFile {
 			big.Vals = append(big.Vals, uint8(i))
 		}
 		f.KVs = append(f.KVs, kit.GKV{Key: "x.big", Type: kit.GArr, Val: big})
+		bigs := kit.GArray{Elem: kit.GStr}
+		for i := 0; i < 1030; i++ { // a vocabulary-like string list that is too long to be collected by default
+			bigs.Vals = append(bigs.Vals, fmt.Sprintf("s%d", i))
+		}
+		f.KVs = append(f.KVs, kit.GKV{Key: "x.bigs", Type: kit.GArr, Val: bigs})
 		for _, kv := range f.KVs {
 			if kv.Key == "general.alignment" {
 				f.Alignment = uint64(kv.Val.(uint32))
@@ -142,9 +148,23 @@ func c10Enumerated(name string, f *kit.GFile) []c10Case {
 		panic(err)
 	}
 	out = append(out, c10Case{Base: name, Mutation: "none", data: b})
+	deepTotal, deepSeen := map[string]int{}, map[string]int{}
+	for _, fl := range fields {
+		if fl.What == "strlen-deep" {
+			deepTotal[fl.Key]++
+		}
+	}
 	for _, fl := range fields {
 		if fl.Size != 4 && fl.Size != 8 {
 			continue
+		}
+		if fl.What == "strlen-deep" && deepTotal[fl.Key] > 64 {
+			// the length fields of a long string list: every 97th element and the last two
+			n := deepSeen[fl.Key]
+			deepSeen[fl.Key]++
+			if n%97 != 0 && n < deepTotal[fl.Key]-2 {
+				continue
+			}
 		}
 		vals := append([]uint64{}, c10Hostile...)
 		vals = append(vals, uint64(len(b)), uint64(len(b))+1, uint64(len(b)-fl.Pos), uint64(len(b)-fl.Pos)+1)
@@ -158,6 +178,66 @@ func c10Enumerated(name string, f *kit.GFile) []c10Case {
 			m := append([]byte(nil), b...)
 			c10Put(m, fl.Pos, fl.Size, f.BigEndian, v)
 			out = append(out, c10Case{Base: name, Mutation: fmt.Sprintf("%s[%s]@%d=%d", fl.What, fl.Key, fl.Pos, v), data: m})
+		}
+	}
+	// lengths that point BACKWARDS (two's complement of a distance, i.e. >= 2^63) to a place where parsing can start
+	// again - the field itself, the key-value entry it belongs to, the first entry - combined with a count of
+	// entries / elements that never runs out: a decoder that turns such a length into a relative seek parses the
+	// same bytes for ever. Pairs of fields, which the single-field sweep above cannot produce.
+	if f.Version >= 2 {
+		var nkv, firstKey *kit.Field
+		for i := range fields {
+			switch {
+			case fields[i].What == "nkv":
+				nkv = &fields[i]
+			case fields[i].What == "keylen" && firstKey == nil:
+				firstKey = &fields[i]
+			}
+		}
+		ownKey, ownCount := map[int]int{}, map[int]int{} // field index -> position of its entry's key length / array count
+		lastKey, lastCount := -1, -1
+		for i, fl := range fields {
+			switch fl.What {
+			case "keylen":
+				lastKey, lastCount = fl.Pos, -1
+			case "arrcount":
+				lastCount = fl.Pos
+			}
+			ownKey[i], ownCount[i] = lastKey, lastCount
+		}
+		deepSeen = map[string]int{}
+		for i, fl := range fields {
+			if fl.Size != 8 || (fl.What != "strlen" && fl.What != "strlen-deep" && fl.What != "keylen") || nkv == nil || firstKey == nil {
+				continue
+			}
+			if fl.What == "strlen-deep" && deepTotal[fl.Key] > 64 {
+				n := deepSeen[fl.Key]
+				deepSeen[fl.Key]++
+				if n%211 != 0 && n < deepTotal[fl.Key]-2 {
+					continue
+				}
+			}
+			after := fl.Pos + 8 // where the reader stands when it has read the length
+			for _, target := range []int{fl.Pos, ownKey[i], firstKey.Pos, nkv.Pos, 0} {
+				if target < 0 || target > fl.Pos {
+					continue
+				}
+				// which counts are made endless: the entries of the file, the elements of the array the string is in, both
+				for variant := 0; variant < 3; variant++ {
+					if variant > 0 && ownCount[i] < 0 {
+						continue
+					}
+					m := append([]byte(nil), b...)
+					c10Put(m, fl.Pos, 8, f.BigEndian, -uint64(after-target))
+					if variant != 1 {
+						c10Put(m, nkv.Pos, nkv.Size, f.BigEndian, 1<<40)
+					}
+					if variant != 0 {
+						c10Put(m, ownCount[i], 8, f.BigEndian, 1<<31-1)
+					}
+					out = append(out, c10Case{Base: name, Mutation: fmt.Sprintf("%s[%s]@%d=back-to-%d,endless-counts-variant-%d", fl.What, fl.Key, fl.Pos, target, variant), data: m})
+				}
+			}
 		}
 	}
 	for n := 0; n < len(b); n++ {
@@ -283,6 +363,53 @@ func c10Allocs() uint64 {
 // current position, continue at the returned end offset until it reaches the end of the file or an error). The
 // walker's whole state is the reader position, so a position seen twice means it never terminates; no clock is
 // involved. Returns "" or the description of the cycle.
+// c10Reader counts what the decoder asks of its input. A decoder that terminates does an amount of work in
+// proportion to the input; one that is sent backwards by a hostile length and parses the same bytes again and again
+// does not. The budget is logical (reader calls), not wall-clock: 64 calls per input byte + 100000, far beyond what
+// any linear pass needs (the decoder reads through a 32 KiB buffer). When it is used up the reader fails, which
+// ends the decode, and the case is reported.
+type c10Reader struct {
+	r        *bytes.Reader
+	calls    int
+	budget   int
+	exceeded bool
+	backward int // seeks that ended before the position they started from
+}
+
+func newC10Reader(data []byte) *c10Reader {
+	return &c10Reader{r: bytes.NewReader(data), budget: 64*len(data) + 100000}
+}
+
+var errC10Budget = errors.New("verif: reader call budget used up")
+
+func (c *c10Reader) spend() error {
+	c.calls++
+	if c.calls > c.budget {
+		c.exceeded = true
+		return errC10Budget
+	}
+	return nil
+}
+
+func (c *c10Reader) Read(p []byte) (int, error) {
+	if err := c.spend(); err != nil {
+		return 0, err
+	}
+	return c.r.Read(p)
+}
+
+func (c *c10Reader) Seek(off int64, whence int) (int64, error) {
+	if err := c.spend(); err != nil {
+		return 0, err
+	}
+	before, _ := c.r.Seek(0, io.SeekCurrent)
+	n, err := c.r.Seek(off, whence)
+	if err == nil && n < before {
+		c.backward++
+	}
+	return n, err
+}
+
 func c10Walk(data []byte, rep *kit.Report) string {
 	rs := bytes.NewReader(data)
 	seen := map[int64]bool{0: true}
@@ -319,8 +446,14 @@ func c10Run(c *c10Case, rep *kit.Report) (sigs [][2]string) {
 				}
 			}()
 			before := c10Allocs()
-			g, end, err := Decode(bytes.NewReader(c.data), maxArr)
+			rd := newC10Reader(c.data)
+			g, end, err := Decode(rd, maxArr)
 			alloc := c10Allocs() - before
+			if rd.exceeded {
+				sigs = append(sigs, [2]string{"c10:decode-does-not-terminate", fmt.Sprintf("Decode(maxArraySize=%d) made more than %d read/seek calls (%d of them seeks that went backwards) on a %d-byte input and was still going: the work is out of all proportion to the input", maxArr, rd.budget, rd.backward, len(c.data))})
+				return
+			}
+			rep.Count("decode_reader_calls", rd.calls)
 			limit := uint64(64*len(c.data) + 8<<20)
 			if alloc > limit {
 				sigs = append(sigs, [2]string{"c10:disproportionate-allocation", fmt.Sprintf("Decode(maxArraySize=%d) allocated %d bytes for a %d-byte input (bound %d)", maxArr, alloc, len(c.data), limit)})
